@@ -406,9 +406,11 @@ TraceNetRun ==
   /\ Ev.ev = "NetRun"
   /\ Rule(l, "LoopAlive", Ev.panics = <<>>, <<"panic on a library thread", Ev.panics>>)
   \* "no" = answered before the hostile datagrams, silent after them, while a fresh control responder answers
-  /\ Rule(l, "LoopAlive", Ev.answered # "no" /\ Ev.answered_discovery # "no",
-          <<"receive loop stopped answering", "responder", Ev.answered, "discovery", Ev.answered_discovery>>)
-  /\ Rule(l, "LockClean", Ev.usable # "no", <<"store unusable after hostile traffic">>)
+  /\ Rule(l, "LoopAlive", Ev.answered # "no" /\ Ev.answered_discovery # "no"
+                           /\ Ev.answered_async # "no" /\ Ev.answered_async_discovery # "no",
+          <<"receive loop stopped answering", "responder", Ev.answered, "discovery", Ev.answered_discovery,
+            "async responder", Ev.answered_async, "async discovery", Ev.answered_async_discovery>>)
+  /\ Rule(l, "LockClean", Ev.usable # "no" /\ Ev.async_usable # "no", <<"store unusable after hostile traffic">>)
 
 (* ApiTrace (C02, C08): an API history of the builder machine (Builder.tla) was replayed    *)
 (* on a real Packet; e.states[i] is the projection of the real packet after call i       *)
